@@ -7,7 +7,7 @@ armed = [l.strip() for l in open(f'{H}/tools/armed.txt') if l.strip()]
 dirs = sys.argv[1:] or sorted(glob.glob(f'{H}/twins/*/'))
 from concurrent.futures import ThreadPoolExecutor
 for d in dirs:
-    d = d.rstrip('/') + '/'
+    d = os.path.abspath(d).rstrip('/') + '/'
     if not os.path.exists(d + 'patch.diff'):
         continue
     if subprocess.run(['git', '-C', '/repo', 'diff', '--quiet']).returncode:
